@@ -12,6 +12,7 @@ From ADV Require Import C04.Model2 C04.ProofsBuf C06.Model32 C06.ModelBuf C06.Pa
                         C06.ProofsJacobi C06.ProofsOpen C06.ProofsLdl C06.ProofsInv3 C06.ProofsGS2.
 From ADV Require C06.ProofsDetN.
 From ADV Require Import C06.ModelOpt C06.ParamT3 C06.ProofsOpt C06.ProofsOptBuf.
+From ADV Require Import C06.ModelHelp C06.ProofsHelp.
 Import ListNotations.
 Open Scope R_scope.
 
@@ -494,6 +495,114 @@ Theorem ldl_recycled_magic_equals_fresh_plain : forall A (D : NumD A) (k ord n :
     = p_fpd_fresh n A (dx D) (nlog D) (map jv data).
 Proof. exact (@ldl_recycled_magic). Qed.
 
+(* ================================================================== round 6 *)
+
+(* (12) the Jacobian / Hessian helpers AS THE TEXT OF THE SOURCE.  [src_helper which sparse] is the statement list
+   that harness/c06/helpsrc.go translates from the bodies of (r *DenseReal64Matrix) / (r *SparseReal64Matrix)
+   Jacobian / Hessian with go/ast on every run (Corr.KHSrc compares; the 32 copies for the other element types must
+   be that text up to the constructor name); [runR_helper f which sparse rn rm r0 x_] interprets it (ModelHelp.hexec)
+   on a receiver of rn x rm entries r0 and the caller's vector x_ (value, N, Order, gradient, Hessian per entry), the
+   supplied function f running on the library's magic scalars.
+   (a) the dense Jacobian helper returns the matrix of first partial derivatives of the supplied function - for EVERY
+       prior content r0 of the receiver (every entry is written) and EVERY caller's vector: plain, or already
+       activated in any way, over any number of variables, at any order, with any gradient / Hessian slots (only its
+       VALUES matter; former known finding F-C06-HELPER-PREACTIVATED, repaired in /repo 8241a1e) - and hands the
+       caller's vector back untouched *)
+Theorem jacobian_helper_returns_first_partials : forall (ts : list texpr) (x_ : list (msc R)) (r0 : list (list R)),
+  let k := length x_ in let x := fun q => nth q (map mv x_) 0 in
+  forallb (scoped k) ts = true -> List.Forall (safe x) (map to_expr ts) ->
+  exists M, runR_helper (vf_of ts) 0 false (length ts) k r0 x_ = HOk M x_ /\
+    length M = length ts /\
+    forall i j, (i < length ts)%nat -> (j < k)%nat ->
+      partial (fun y => evalR y (to_expr (nth i ts (TCst 0)))) j x (nth j (nth i M []) 0).
+Proof. exact jacobian_helper_partials. Qed.
+
+(* (b) the dense Hessian helper returns the (symmetric) matrix of second partial derivatives, same generality *)
+Theorem hessian_helper_returns_second_partials : forall (t : texpr) (x_ : list (msc R)) (r0 : list (list R)),
+  let k := length x_ in let x := fun q => nth q (map mv x_) 0 in
+  scoped k t = true -> safe x (to_expr t) ->
+  exists M, runR_helper (vf_of [t]) 1 false k k r0 x_ = HOk M x_ /\
+    length M = k /\
+    forall i j, (i < k)%nat -> (j < k)%nat ->
+      partial2 (fun y => evalR y (to_expr t)) i j x (nth j (nth i M []) 0) /\
+      nth j (nth i M []) 0 = nth i (nth j M []) 0.
+Proof. exact hessian_helper_partials. Qed.
+
+(* the function the partial derivatives are taken of IS the supplied function run on plain reals *)
+Theorem helper_function_on_reals : forall (xs : list R) (t : texpr),
+  teval M5.NumXR ln xs t = evalR (fun q => nth q xs 0) (to_expr t).
+Proof. exact teval_R. Qed.
+
+(* (c) frame: the result is a closed expression of the point alone - not of the receiver's content, not of the
+   derivative state of the caller's vector *)
+Theorem jacobian_helper_result_closed_form : forall (ts : list texpr) (x_ : list (msc R)) (r0 : list (list R)),
+  forallb (scoped (length x_)) ts = true ->
+  runR_helper (vf_of ts) 0 false (length ts) (length x_) r0 x_ = HOk (jac_matrix ts (map mv x_)) x_.
+Proof. exact jac_dense_run. Qed.
+Theorem hessian_helper_result_closed_form : forall (t : texpr) (x_ : list (msc R)) (r0 : list (list R)),
+  scoped (length x_) t = true ->
+  runR_helper (vf_of [t]) 1 false (length x_) (length x_) r0 x_ = HOk (hes_matrix t (map mv x_)) x_.
+Proof. exact hes_dense_run. Qed.
+(* the clone after Variables(o) is the vector of fresh variables at the caller's VALUES, for every carrier *)
+Theorem helper_clone_forgets_callers_derivatives : forall A (D : NumD A) (k o : nat) (l : list nat) (x_ : list (msc A)),
+  map (fun p => set_variable D (fst p) k o (snd p)) (combine l x_)
+  = map (fun p => jvar D k o (fst p) (snd p)) (combine l (map mv x_)).
+Proof. exact (@clone_vars). Qed.
+
+(* (d) dense receivers of the wrong dimensions are rejected (every supplied function, every vector) *)
+Theorem jacobian_helper_rejects_wrong_dimensions : forall (f : vfun) (x_ : list (msc R)) (rn rm : nat) (r0 : list (list R)),
+  (rm <> length x_ \/
+   rn <> length (f (jet R) (NumXJ NumDR (length x_) 1) (jlog NumDR (length x_) 1)
+                   (map (fun p => set_variable NumDR (fst p) (length x_) 1 (snd p)) (combine (seq 0 (length x_)) x_)))) ->
+  runR_helper f 0 false rn rm r0 x_ = HPanic.
+Proof. exact jac_dense_mismatch. Qed.
+Theorem hessian_helper_rejects_wrong_dimensions : forall (f : vfun) (x_ : list (msc R)) (rn rm : nat) (r0 : list (list R)),
+  (rn <> length x_ \/ rn <> rm) -> runR_helper f 1 false rn rm r0 x_ = HPanic.
+Proof. exact hes_dense_mismatch. Qed.
+
+(* (e) the sparse copies: for EVERY receiver - any dimensions (wrong ones are replaced), any content (a recycled result
+   matrix of matching dimensions is Reset: former known finding F-C06-SPARSE-HELPER-STALE, repaired in /repo 9a15545) -
+   they return the matrix of partial derivatives ... *)
+Theorem sparse_jacobian_helper_every_receiver : forall (ts : list texpr) (x_ : list (msc R)) (rn rm : nat) (r0 : list (list R)),
+  forallb (scoped (length x_)) ts = true ->
+  runR_helper (vf_of ts) 0 true rn rm r0 x_ = HOk (jac_matrix ts (map mv x_)) x_.
+Proof. exact jac_sparse_run. Qed.
+Theorem sparse_hessian_helper_every_receiver : forall (t : texpr) (x_ : list (msc R)) (rn rm : nat) (r0 : list (list R)),
+  scoped (length x_) t = true ->
+  runR_helper (vf_of [t]) 1 true rn rm r0 x_ = HOk (hes_matrix t (map mv x_)) x_.
+Proof. exact hes_sparse_run. Qed.
+(* ... i.e. what the dense copies return, whatever either receiver held *)
+Theorem sparse_helpers_equal_dense_helpers : forall (ts : list texpr) (t : texpr) (x_ : list (msc R)) (r0 r0' : list (list R)),
+  forallb (scoped (length x_)) ts = true -> scoped (length x_) t = true ->
+  runR_helper (vf_of ts) 0 true (length ts) (length x_) r0 x_ = runR_helper (vf_of ts) 0 false (length ts) (length x_) r0' x_ /\
+  runR_helper (vf_of [t]) 1 true (length x_) (length x_) r0 x_ = runR_helper (vf_of [t]) 1 false (length x_) (length x_) r0' x_.
+Proof. exact sparse_equals_dense. Qed.
+
+(* the hypotheses are satisfiable by a non-trivial instance: f = (x0 x1, x0 / x1) at the point (2, 3), the caller's
+   vector already activated over 2 variables at order 1 and carrying the gradient of an earlier computation *)
+Example helper_hypotheses_nontrivial :
+  let x_ := [mkMs 2 2 1 [3; 2] []; mkMs 3 2 1 [0; 1] []] in let x := fun q => nth q (map mv x_) 0 in
+  forallb (scoped 2) [TMul (TVar 0) (TVar 1); TDiv (TVar 0) (TVar 1)] = true /\
+  List.Forall (safe x) (map to_expr [TMul (TVar 0) (TVar 1); TDiv (TVar 0) (TVar 1)]).
+Proof. exact helper_example_hyps. Qed.
+
+(* (f) the two former refutation witnesses, now regression examples (binary64 run of the model of HEAD): the Jacobian
+   of x0 + x1 at (6, 5) is [1 1] also when x0 carries the gradient (3, 2) over 2 variables at order 1; the Jacobian of
+   x0^2 at (6, 5) into a 1 x 2 sparse receiver that held (0, 7) is (12, 0), as for the dense copy *)
+Example jacobian_helper_preactivated_vector_binary64 :
+  runF_helper (vf_of [TAdd (TVar 0) (TVar 1)]) 0 false 1 2 [[0; 0]]%float [ms_plain 6%float; ms_plain 5%float]
+    = HOk [[1; 1]]%float [ms_plain 6%float; ms_plain 5%float] /\
+  runF_helper (vf_of [TAdd (TVar 0) (TVar 1)]) 0 false 1 2 [[0; 0]]%float
+              [mkMs 6%float 2 1 [3; 2]%float []; mkMs 5%float 2 1 [0; 1]%float []]
+    = HOk [[1; 1]]%float [mkMs 6%float 2 1 [3; 2]%float []; mkMs 5%float 2 1 [0; 1]%float []].
+Proof. exact jacobian_preactivated_witness. Qed.
+Example sparse_helper_recycled_receiver_binary64 :
+  runF_helper (vf_of [TMul (TVar 0) (TVar 0)]) 0 true 1 2 [[0; 7]]%float [ms_plain 6%float; ms_plain 5%float]
+    = HOk [[12; 0]]%float [ms_plain 6%float; ms_plain 5%float] /\
+  runF_helper (vf_of [TMul (TVar 0) (TVar 0)]) 0 false 1 2 [[0; 7]]%float [ms_plain 6%float; ms_plain 5%float]
+    = HOk [[12; 0]]%float [ms_plain 6%float; ms_plain 5%float].
+Proof. exact sparse_recycled_witness. Qed.
+
 (* Not proved (stated for the record):
    inverse_3x3_values_partial - that the straight-line programs inv3_E_ne / inv3_E_ex evaluate to the entries of the
      inverse is not proved symbolically (2x2: proved); the general theorem all_routines_derivatives + the bit-exact
@@ -504,4 +613,6 @@ Proof. exact (@ldl_recycled_magic). Qed.
      models (M5.cholesky_ldl / cholesky_ldl_forcepd, used by the derivative theorems) are not proved equal; both are
      replayed against Go on the same rows (Corr.KO).
    recycled Gram-Schmidt / Hessenberg / tri-/bidiagonalisation buffers: tie only (Go's recycled run = the
-     fresh model term), no buffer-taking model. *)
+     fresh model term), no buffer-taking model.
+   helpers_arbitrary_closure_partial - the helper theorems quantify over supplied functions given by expressions
+     (+ - * / neg sqrt log over the argument entries and integer constants); an arbitrary Go closure is outside. *)
